@@ -116,12 +116,15 @@ pub enum Tx {
 pub struct Chan {
     pub tx: Vec<UCell<Option<Tx>>>,
     pub rx: UCell<Option<Receiver<i64>>>,
+    /// the owning iterator (`rx.into_iter()`), once the receiver has been turned into one
+    pub iter: UCell<Option<shuttle::sync::mpsc::IntoIter<i64>>>,
 }
 
 pub struct World {
     pub prog: Arc<Prog>,
     pub mutexes: Vec<Mutex<i64>>,
     pub atomics: Vec<AtomicU8>,
+    pub bools: Vec<Option<shuttle::sync::atomic::AtomicBool>>,
     pub cvs: Vec<Condvar>,
     pub rws: Vec<RwLock<i64>>,
     pub chans: Vec<Chan>,
@@ -158,12 +161,15 @@ impl World {
                 for _ in 1..MAX_TX {
                     txs.push(UCell::new(None));
                 }
-                Chan { tx: txs, rx: UCell::new(Some(rx)) }
+                Chan { tx: txs, rx: UCell::new(Some(rx)), iter: UCell::new(None) }
             })
             .collect();
         World {
             mutexes: (0..prog.nmutex).map(|_| Mutex::new(0)).collect(),
             atomics: prog.atomics.iter().map(|&v| AtomicU8::new(v as u8)).collect(),
+            bools: prog.atomics.iter().enumerate()
+                .map(|(i, &v)| if prog.boolcells.contains(&i) { Some(shuttle::sync::atomic::AtomicBool::new(v != 0)) } else { None })
+                .collect(),
             cvs: (0..prog.ncv).map(|_| Condvar::new()).collect(),
             rws: (0..prog.nrw).map(|_| RwLock::new(0)).collect(),
             chans,
@@ -692,6 +698,16 @@ fn exec_op<'a>(warc: &Arc<World>, w: &'a World, _ix: usize, op: &Op, guards: &mu
         "fxor" => w.atomics[o].fetch_xor(op.v as u8, ord(op.w)) as i64,
         "fnand" => w.atomics[o].fetch_nand(op.v as u8, ord(op.w)) as i64,
         "fmax" => w.atomics[o].fetch_max(op.v as u8, ord(op.w)) as i64,
+        "b_load" => w.bools[o].as_ref().expect("not a bool cell").load(ord(op.w)) as i64,
+        "b_store" => {
+            w.bools[o].as_ref().expect("not a bool cell").store(op.v % 2 == 1, ord(op.w));
+            0
+        }
+        "b_swap" => w.bools[o].as_ref().expect("not a bool cell").swap(op.v % 2 == 1, ord(op.w)) as i64,
+        "b_and" => w.bools[o].as_ref().expect("not a bool cell").fetch_and(op.v % 2 == 1, ord(op.w)) as i64,
+        "b_or" => w.bools[o].as_ref().expect("not a bool cell").fetch_or(op.v % 2 == 1, ord(op.w)) as i64,
+        "b_xor" => w.bools[o].as_ref().expect("not a bool cell").fetch_xor(op.v % 2 == 1, ord(op.w)) as i64,
+        "b_nand" => w.bools[o].as_ref().expect("not a bool cell").fetch_nand(op.v % 2 == 1, ord(op.w)) as i64,
         "fmin" => w.atomics[o].fetch_min(op.v as u8, ord(op.w)) as i64,
         // cas: v = expected, w = new
         "cas" => match w.atomics[o].compare_exchange(op.v as u8, op.w as u8, Ordering::SeqCst, Ordering::SeqCst) {
@@ -726,6 +742,17 @@ fn exec_op<'a>(warc: &Arc<World>, w: &'a World, _ix: usize, op: &Op, guards: &mu
                     Err(TrySendError::Full(_)) => -3,
                     Err(TrySendError::Disconnected(_)) => -1,
                 },
+            }
+        }
+        // w = 1: through the owning iterator (`for x in rx`): the next item, or -2 once the channel is disconnected
+        "recv" if op.w == 1 => {
+            if w.chans[o].iter.get().is_none() {
+                let rx = w.chans[o].rx.get().take().expect("recv(iter): dropped receiver");
+                *w.chans[o].iter.get() = Some(rx.into_iter());
+            }
+            match w.chans[o].iter.get().as_mut().unwrap().next() {
+                Some(v) => v,
+                None => -2,
             }
         }
         "recv" => {
